@@ -199,7 +199,8 @@ Lemma stack_inv_push T log n : forall sps g lo,
   stack_inv T log lo (sps ++ [(n, length log)]) (g ++ [mkG n T false]).
 Proof.
   induction sps as [|[n0 i0] sps IH]; intros [|e g] lo Hlo H; cbn in H |- *; try tauto.
-  - repeat split; auto. + constructor. + cbn. apply tabs_beq_refl. + rewrite skipn_all. constructor.
+  - split; [reflexivity|]. split; [assumption|]. split; [lia|]. split; [|exact I].
+    intros _. cbn [g_copy]. rewrite skipn_all. split; [constructor|]. split; [apply tabs_beq_refl|constructor].
   - destruct H as (H1 & H2 & H3 & H4 & H5). repeat split; auto; try (apply H4; assumption).
     apply Forall_app; split; [apply H4; assumption|repeat constructor].
 Qed.
@@ -262,3 +263,624 @@ Proof.
     + destruct sps, g; cbn; auto.
     + eapply IH; eauto.
 Qed.
+
+(** ROLLBACK TO a dirty savepoint [j]: every older copy is dirty too, only the bounds matter *)
+Lemma stack_inv_cut_dirty T T' log idx :
+  (idx <= length log)%nat ->
+  forall sps g lo j n e,
+    stack_inv T log lo sps g -> nth_error sps j = Some (n, idx) -> nth_error g j = Some e ->
+    g_dirty e = true ->
+    stack_inv T' (firstn idx log) lo (firstn (S j) sps) (firstn (S j) g).
+Proof.
+  intros Hidx. induction sps as [|[n0 i0] sps IH]; intros [|e0 g] lo j n e H Hn Hg Hd; cbn in H; try tauto;
+    try (destruct j; discriminate).
+  destruct H as (H1 & H2 & H3 & H4 & H5).
+  assert (Hi0 : (i0 <= idx)%nat).
+  { destruct j as [|j]; cbn in Hn; [inversion Hn; lia|].
+    pose proof (stack_inv_bounds _ _ _ _ _ _ _ _ H5 Hn). lia. }
+  assert (Hd0 : g_dirty e0 = true).
+  { destruct (g_dirty e0) eqn:E0; [reflexivity|]. destruct j as [|j]; cbn in Hg.
+    - inversion Hg; subst; congruence.
+    - destruct (H4 eq_refl) as (_ & _ & F). rewrite Forall_forall in F.
+      rewrite (F e (nth_error_In _ _ Hg)) in Hd. discriminate. }
+  cbn [firstn stack_inv]. split; [assumption|]. split; [assumption|]. split.
+  { rewrite firstn_length_le by assumption. assumption. }
+  split; [intros Hc; congruence|].
+  destruct j as [|j]; cbn in Hn, Hg.
+  - destruct sps, g; cbn; auto.
+  - eapply IH; eauto.
+Qed.
+
+(** the clean facts of one entry *)
+Lemma stack_inv_nth T log : forall sps g lo j n i e,
+  stack_inv T log lo sps g -> nth_error sps j = Some (n, i) -> nth_error g j = Some e ->
+  g_dirty e = false ->
+  n = g_name e /\ clean_log T (skipn i log) /\ tabs_beq T (replay (g_copy e) (skipn i log)).
+Proof.
+  induction sps as [|[n0 i0] sps IH]; intros [|e0 g] lo j n i e H Hn Hg Hd; cbn in H; try tauto;
+    try (destruct j; discriminate).
+  destruct H as (H1 & H2 & H3 & H4 & H5). destruct j as [|j]; cbn in Hn, Hg.
+  - inversion Hn; inversion Hg; subst. destruct (H4 Hd) as (C & B & _). auto.
+  - eapply IH; eauto.
+Qed.
+
+Lemma sp_position_nth n : forall sps j,
+  sp_position n sps = Some j ->
+  exists i, nth_error sps j = Some (n, i) /\ nth j sps (0, O) = (n, i).
+Proof.
+  induction sps as [|[n0 i0] sps IH]; intros j H; cbn in H; [discriminate|].
+  destruct (n0 =? n) eqn:E.
+  - inversion H; subst. apply Z.eqb_eq in E; subst. exists i0. cbn. auto.
+  - destruct (sp_position n sps) as [j'|] eqn:P; [|discriminate]. inversion H; subst.
+    destruct (IH j' eq_refl) as (i & H1 & H2). exists i. cbn. auto.
+Qed.
+
+Lemma sp_position_first n : forall sps j,
+  sp_position n sps = Some j -> sp_position n (firstn (S j) sps) = Some j.
+Proof.
+  induction sps as [|[n0 i0] sps IH]; intros j H; cbn in H; [discriminate|].
+  cbn [firstn sp_position]. destruct (n0 =? n) eqn:E.
+  - inversion H; subst. reflexivity.
+  - destruct (sp_position n sps) as [j'|] eqn:P; [|discriminate]. inversion H; subst.
+    now rewrite (IH j' eq_refl).
+Qed.
+
+Lemma nth_error_same_length {A B} (l : list A) (m : list B) j a :
+  length l = length m -> nth_error l j = Some a -> exists b, nth_error m j = Some b.
+Proof.
+  intros HL H. assert (j < length m)%nat by (rewrite <- HL; apply nth_error_Some; congruence).
+  destruct (nth_error m j) eqn:E; [eauto|]. apply nth_error_None in E. lia.
+Qed.
+
+(** * Effect of the data statements on (tables, log) *)
+Definition is_data_op (o : op) : bool :=
+  match o with
+  | OBegin | OCommit | ORollback | OSavepoint _ | ORelease _ | ORollbackTo _ => false
+  | _ => true
+  end.
+
+Definition tx_grow (d d' : db) (extra : list change) : Prop :=
+  d_tx d' = match d_tx d with
+            | None => None
+            | Some x => Some (mkTxn (x_cat x) (x_tabs x) (x_sps x) (x_log x ++ extra))
+            end.
+
+Lemma tx_grow_refl d : tx_grow d d [].
+Proof. unfold tx_grow. destruct (d_tx d) as [[c T s l]|]; cbn; [now rewrite app_nil_r|reflexivity]. Qed.
+
+Lemma tx_grow_same_tx c T U d : tx_grow d (mkDb c T U (d_tx d)) [].
+Proof. unfold tx_grow. cbn. destruct (d_tx d) as [[c0 T0 s l]|]; cbn; [now rewrite app_nil_r|reflexivity]. Qed.
+
+Lemma tx_grow_record c T U d cs : tx_grow d (record (mkDb c T U (d_tx d)) cs) cs.
+Proof. unfold tx_grow, record. cbn. destruct (d_tx d); reflexivity. Qed.
+
+Lemma api_insert_row_grow d t r : exists extra, tx_grow d (fst (api_insert_row d t r)) extra.
+Proof.
+  unfold api_insert_row. repeat (destr_match; cbn [fst]); eauto using tx_grow_refl, tx_grow_record.
+Qed.
+
+Lemma api_insert_batch_grow d t rs : exists extra, tx_grow d (fst (api_insert_batch d t rs)) extra.
+Proof.
+  unfold api_insert_batch.
+  repeat (destr_match; cbn [fst]); eauto using tx_grow_refl, tx_grow_record, tx_grow_same_tx.
+Qed.
+
+Lemma step_data_grow d o : is_data_op o = true -> exists extra, tx_grow d (fst (step d o)) extra.
+Proof.
+  destruct o; try discriminate; intros _; cbn [step].
+  - unfold sql_insert. repeat (destr_match; cbn [fst]);
+      eauto using tx_grow_refl, api_insert_row_grow, api_insert_batch_grow.
+  - apply api_insert_row_grow.
+  - apply api_insert_batch_grow.
+  - cbn [fst]. exists [c]. unfold tx_grow, record. destruct (d_tx d) eqn:E; cbn; rewrite ?E; reflexivity.
+  - unfold sql_update. repeat (destr_match; cbn [fst]); eauto using tx_grow_refl, tx_grow_same_tx.
+  - unfold sql_delete. repeat (destr_match; cbn [fst]); eauto using tx_grow_refl, tx_grow_same_tx.
+  - unfold sql_create_index. repeat (destr_match; cbn [fst]); eauto using tx_grow_refl, tx_grow_same_tx.
+  - unfold sql_drop_index. repeat (destr_match; cbn [fst]); eauto using tx_grow_refl, tx_grow_same_tx.
+Qed.
+
+(** what a clean statement does: the log grows by clean entries that replay to the new tables *)
+Definition clean_effect (d d' : db) : Prop :=
+  exists extra,
+    tx_grow d d' extra /\ schema_of (d_tabs d') = schema_of (d_tabs d) /\
+    clean_log (d_tabs d) extra /\
+    (forall X, tabs_beq (d_tabs d) X -> tabs_beq (d_tabs d') (replay X extra)).
+
+Lemma clean_effect_refl d : clean_effect d d.
+Proof. exists []. repeat split; auto using tx_grow_refl. constructor. Qed.
+
+Lemma clean_effect_same_tabs c U d : clean_effect d (mkDb c (d_tabs d) U (d_tx d)).
+Proof. exists []. repeat split; auto using tx_grow_same_tx. constructor. Qed.
+
+Lemma stable_row_insert tb r :
+  stable_row (t_cols tb) r = true ->
+  exists r', table_insert tb r = Done (mkTable (t_cols tb) (t_rows tb ++ [r'])) /\ row_eqb r r' = true.
+Proof.
+  unfold stable_row, table_insert. destruct (normalize_row (t_cols tb) r) as [r'| |]; try discriminate.
+  intros H. eauto.
+Qed.
+
+(** one clean row inserted through [Database::insert_row] *)
+Lemma api_insert_row_clean d t r :
+  rows_clean (d_tabs d) t [r] = true -> clean_effect d (fst (api_insert_row d t r)).
+Proof.
+  unfold rows_clean, api_insert_row. destruct (get_table (d_tabs d) t) as [tb|] eqn:G; [|intros _; apply clean_effect_refl].
+  cbn [forallb]. rewrite andb_true_r. intros St.
+  destruct (stable_row_insert tb r St) as (r' & -> & E). cbn [fst].
+  exists [CInsert t r]. split; [apply tx_grow_record|]. rewrite record_tabs. cbn [d_tabs].
+  split; [eapply schema_set_table; eauto|]. split.
+  - constructor; [|constructor]. cbn. eauto.
+  - intros X HX. cbn [replay fold_left replay_change].
+    destruct (tabs_beq_get _ _ _ _ HX G) as (tbX & GX & Hc & Hb). rewrite GX.
+    apply tabs_beq_set; cbn; auto. apply bag_eq_app; [assumption|].
+    apply bag_eq_single. now rewrite row_eqb_sym.
+Qed.
+
+Lemma table_insert_many_clean rs : forall tb,
+  forallb (stable_row (t_cols tb)) rs = true ->
+  exists rs', table_insert_many tb rs = (mkTable (t_cols tb) (t_rows tb ++ rs'), Done tt) /\ bag_eq rs' rs.
+Proof.
+  induction rs as [|r rs IH]; intros tb H; cbn [forallb table_insert_many] in *.
+  - exists []. rewrite app_nil_r. destruct tb; split; [reflexivity|apply bag_eq_refl].
+  - apply andb_true_iff in H as [H1 H2]. destruct (stable_row_insert tb r H1) as (r' & -> & E).
+    destruct (IH (mkTable (t_cols tb) (t_rows tb ++ [r']))) as (rs' & -> & Hb); [exact H2|].
+    cbn [t_cols t_rows]. exists (r' :: rs'). rewrite <- app_assoc. split; [reflexivity|].
+    change (r' :: rs') with ([r'] ++ rs'). change (r :: rs) with ([r] ++ rs).
+    apply bag_eq_app; [|assumption]. apply bag_eq_single. now rewrite row_eqb_sym.
+Qed.
+
+Lemma replay_inserts t rs : forall X tbX,
+  get_table X t = Some tbX ->
+  replay X (map (CInsert t) rs) = set_table X t (mkTable (t_cols tbX) (t_rows tbX ++ rs)).
+Proof.
+  induction rs as [|r rs IH]; intros X tbX G; cbn [map replay fold_left].
+  - rewrite app_nil_r. destruct tbX. symmetry. now apply set_table_same.
+  - cbn [replay_change]. rewrite G. fold (replay (set_table X t (mkTable (t_cols tbX) (t_rows tbX ++ [r]))) (map (CInsert t) rs)).
+    rewrite (IH _ (mkTable (t_cols tbX) (t_rows tbX ++ [r]))) by (eapply get_set_same; eauto).
+    cbn [t_cols t_rows]. rewrite set_set_table, <- app_assoc. reflexivity.
+Qed.
+
+(** several clean rows inserted through [Database::insert_rows_batch] *)
+Lemma api_insert_batch_clean d t rs :
+  rows_clean (d_tabs d) t rs = true -> clean_effect d (fst (api_insert_batch d t rs)).
+Proof.
+  unfold rows_clean, api_insert_batch. destruct rs as [|r0 rs0]; [intros _; apply clean_effect_refl|].
+  set (rs := r0 :: rs0).
+  destruct (get_table (d_tabs d) t) as [tb|] eqn:G; [|intros _; apply clean_effect_refl].
+  intros St. destruct (table_insert_many_clean rs tb St) as (rs' & -> & Hb). cbn [fst].
+  exists (map (CInsert t) rs). split; [apply tx_grow_record|]. rewrite record_tabs. cbn [d_tabs].
+  split; [eapply schema_set_table; eauto|]. split.
+  - apply Forall_forall. intros c Hc. apply in_map_iff in Hc as (r & <- & Hr). cbn.
+    exists tb. split; [assumption|]. rewrite forallb_forall in St. auto.
+  - intros X HX. destruct (tabs_beq_get _ _ _ _ HX G) as (tbX & GX & Hc & Hb2).
+    rewrite (replay_inserts t rs X tbX GX). apply tabs_beq_set; cbn; auto.
+    apply bag_eq_app; assumption.
+Qed.
+
+Lemma count_matching_zero_update cols c k w rows :
+  count_matching w rows = O -> update_rows cols c k w rows = (rows, Done tt).
+Proof.
+  unfold count_matching. induction rows as [|r rows IH]; cbn [filter update_rows]; [reflexivity|].
+  destruct (matches w r); cbn [length]; [discriminate|]. intros H. now rewrite IH.
+Qed.
+
+Lemma count_matching_zero_filter w rows :
+  count_matching w rows = O -> filter (fun r => negb (matches w r)) rows = rows.
+Proof.
+  unfold count_matching. induction rows as [|r rows IH]; cbn [filter]; [reflexivity|].
+  destruct (matches w r); cbn [length negb]; [discriminate|]. intros H. now rewrite IH.
+Qed.
+
+Lemma count_matching_none rows : count_matching None rows = length rows.
+Proof. unfold count_matching. induction rows; cbn; auto. Qed.
+
+Lemma step_data_clean d o : is_data_op o = true -> op_clean d o = true -> clean_effect d (fst (step d o)).
+Proof.
+  destruct o; try discriminate; intros _; cbn [step op_clean].
+  - (* OInsert *)
+    unfold sql_insert. destruct (get_table (d_tabs d) t) as [tb|] eqn:G; [|intros _; apply clean_effect_refl].
+    destruct (negb (forallb _ rows)); [intros _; apply clean_effect_refl|].
+    destruct (coerce_rows (t_cols tb) rows) as [rs| |]; try (intros _; apply clean_effect_refl).
+    intros St. destruct rs as [|r [|r2 rs]]; [apply clean_effect_refl| |].
+    + apply api_insert_row_clean. unfold rows_clean. now rewrite G.
+    + apply api_insert_batch_clean. unfold rows_clean. now rewrite G.
+  - apply api_insert_row_clean.
+  - apply api_insert_batch_clean.
+  - (* OUpdate touching no row *)
+    unfold sql_update. destruct (get_table (d_tabs d) t) as [tb|] eqn:G; [|intros _; apply clean_effect_refl].
+    intros Hz. apply Nat.eqb_eq in Hz. rewrite Hz.
+    destruct (_ <=? _)%nat; [apply clean_effect_refl|].
+    rewrite (count_matching_zero_update _ _ _ _ _ Hz). cbn [fst].
+    replace (mkTable (t_cols tb) (t_rows tb)) with tb by (destruct tb; reflexivity).
+    rewrite (set_table_same _ _ _ G). apply clean_effect_same_tabs.
+  - (* ODelete touching no row *)
+    unfold sql_delete. destruct (get_table (d_tabs d) t) as [tb|] eqn:G; [|intros _; apply clean_effect_refl].
+    intros Hz. apply Nat.eqb_eq in Hz. cbn [fst].
+    assert (Hr : match w with None => [] | Some _ => filter (fun r => negb (matches w r)) (t_rows tb) end = t_rows tb).
+    { destruct w; [now apply count_matching_zero_filter|].
+      rewrite count_matching_none in Hz. destruct (t_rows tb); [reflexivity|discriminate]. }
+    rewrite Hr. replace (mkTable (t_cols tb) (t_rows tb)) with tb by (destruct tb; reflexivity).
+    rewrite (set_table_same _ _ _ G). apply clean_effect_same_tabs.
+  - (* OCreateIndex *)
+    intros _. unfold sql_create_index. repeat (destr_match; cbn [fst]); try apply clean_effect_refl.
+    apply clean_effect_same_tabs.
+  - (* ODropIndex *)
+    intros _. unfold sql_drop_index. repeat (destr_match; cbn [fst]); try apply clean_effect_refl;
+    apply clean_effect_same_tabs.
+Qed.
+
+(** * The invariant holds along every history *)
+Lemma ginv_init d : d_tx d = None -> ginv d [].
+Proof. unfold ginv. now intros ->. Qed.
+
+Lemma ginv_step_data d g o : is_data_op o = true -> ginv d g -> ginv (fst (step d o)) (gstep d g o).
+Proof.
+  intros Hd H. unfold ginv in *.
+  assert (Hg : gstep d g o = if op_clean d o then g else g_taint g) by (destruct o; try discriminate; reflexivity).
+  rewrite Hg. destruct (d_tx d) as [x|] eqn:E.
+  - destruct (op_clean d o) eqn:C.
+    + destruct (step_data_clean d o Hd C) as (extra & HG & HS & HC & HR).
+      unfold tx_grow in HG. rewrite E in HG. rewrite HG. cbn [x_log x_sps].
+      eapply stack_inv_extend; eauto.
+    + destruct (step_data_grow d o Hd) as (extra & HG).
+      unfold tx_grow in HG. rewrite E in HG. rewrite HG. cbn [x_log x_sps].
+      apply stack_inv_taint with (T := d_tabs d). assumption.
+  - subst g. destruct (step_data_grow d o Hd) as (extra & HG).
+    unfold tx_grow in HG. rewrite E in HG. rewrite HG. destruct (op_clean d o); reflexivity.
+Qed.
+
+Lemma ginv_step d g o : ginv d g -> ginv (fst (step d o)) (gstep d g o).
+Proof.
+  intros H. destruct (is_data_op o) eqn:Hd; [now apply ginv_step_data|].
+  unfold ginv in *. destruct (d_tx d) as [x|] eqn:E.
+  - (* inside a transaction *)
+    destruct o; try discriminate Hd; cbn [step gstep].
+    + unfold begin_txn. rewrite E. cbn [fst]. now rewrite E.
+    + unfold commit_txn. rewrite E. reflexivity.
+    + unfold rollback_txn. rewrite E. reflexivity.
+    + unfold create_savepoint. rewrite E. cbn [fst d_tx d_tabs x_log x_sps].
+      apply stack_inv_push; [lia|assumption].
+    + unfold release_savepoint. rewrite E.
+      rewrite (stack_inv_positions _ _ n _ _ _ H).
+      destruct (sp_position n (x_sps x)) as [j|]; cbn [fst d_tx d_tabs x_log x_sps]; [|now rewrite E].
+      now apply stack_inv_remove.
+    + unfold rollback_to_savepoint. rewrite E.
+      rewrite (stack_inv_positions _ _ n _ _ _ H).
+      destruct (sp_position n (x_sps x)) as [j|] eqn:P; cbn [fst]; [|now rewrite E].
+      destruct (sp_position_nth n _ _ P) as (idx & Hn & Hnth). rewrite Hnth. cbn [snd].
+      pose proof (stack_inv_bounds _ _ _ _ _ _ _ _ H Hn) as [_ Hidx].
+      replace (length (x_log x) <? idx)%nat with false by (symmetry; apply Nat.ltb_ge; assumption).
+      destruct (nth_error_same_length _ g _ _ (stack_inv_length _ _ _ _ _ H) Hn) as (e & He).
+      destruct (g_dirty e) eqn:De.
+      * assert (HC : forall T', stack_inv T' (firstn idx (x_log x)) 0 (firstn (S j) (x_sps x)) (firstn (S j) g)).
+        { intros T'. eapply stack_inv_cut_dirty; eauto. }
+        destruct (undo_all (d_tabs d) (rev (skipn idx (x_log x)))) as [T' [u| |]];
+          cbn [fst d_tx d_tabs x_log x_sps]; apply HC.
+      * destruct (stack_inv_nth _ _ _ _ _ _ _ _ _ H Hn He De) as (_ & C & B).
+        destruct (undo_replay _ _ _ C B) as (T' & HU & HB & HS). rewrite HU.
+        cbn [fst d_tx d_tabs x_log x_sps].
+        eapply stack_inv_cut_clean; eauto.
+        intros X HX. destruct (undo_replay _ _ _ C HX) as (T'' & HU' & HB' & _).
+        rewrite HU in HU'. inversion HU'; subst. assumption.
+  - (* no transaction *)
+    subst g. destruct o; try discriminate Hd; cbn [step gstep].
+    + unfold begin_txn. rewrite E. cbn. exact I.
+    + unfold commit_txn. rewrite E. cbn [fst]. now rewrite E.
+    + unfold rollback_txn. rewrite E. cbn [fst]. now rewrite E.
+    + unfold create_savepoint. rewrite E. cbn [fst]. now rewrite E.
+    + unfold release_savepoint. rewrite E. cbn [fst g_position]. now rewrite E.
+    + unfold rollback_to_savepoint. rewrite E. cbn [fst g_position]. now rewrite E.
+Qed.
+
+Lemma grun_app d g a b : grun d g (a ++ b) = grun (fst (grun d g a)) (snd (grun d g a)) b.
+Proof. revert d g; induction a as [|o a IH]; intros d g; cbn [grun app fst snd]; [reflexivity|apply IH]. Qed.
+
+Lemma grun_fst ops : forall d g, fst (grun d g ops) = run d ops.
+Proof. induction ops as [|o ops IH]; intros d g; cbn [grun run fold_left]; [reflexivity|apply IH]. Qed.
+
+Theorem ginv_grun ops : forall d g, ginv d g -> ginv (fst (grun d g ops)) (snd (grun d g ops)).
+Proof.
+  induction ops as [|o ops IH]; intros d g H; cbn [grun]; [assumption|].
+  apply IH. now apply ginv_step.
+Qed.
+
+(** * C14 *)
+
+(** ROLLBACK TO a savepoint whose copy is clean: the statement succeeds, every table holds (as a
+    bag) what it held when the savepoint was created, that savepoint stays and the later ones go.
+    The savepoint is the FIRST of that name (duplicate names). *)
+Theorem rollback_to_restores d g n j e :
+  ginv d g -> g_position n g = Some j -> nth_error g j = Some e -> g_dirty e = false ->
+  let res := step d (ORollbackTo n) in
+  snd res = ROk 0 /\ tabs_beq (d_tabs (fst res)) (g_copy e) /\
+  exists x x', d_tx d = Some x /\ d_tx (fst res) = Some x' /\
+               x_sps x' = firstn (S j) (x_sps x) /\ sp_position n (x_sps x') = Some j.
+Proof.
+  intros H P He De res. unfold ginv in H. destruct (d_tx d) as [x|] eqn:E; [|subst g; discriminate].
+  rewrite (stack_inv_positions _ _ n _ _ _ H) in P.
+  destruct (sp_position_nth n _ _ P) as (idx & Hn & Hnth).
+  pose proof (stack_inv_bounds _ _ _ _ _ _ _ _ H Hn) as [_ Hidx].
+  destruct (stack_inv_nth _ _ _ _ _ _ _ _ _ H Hn He De) as (_ & C & B).
+  destruct (undo_replay _ _ _ C B) as (T' & HU & HB & HS).
+  unfold res. cbn [step]. unfold rollback_to_savepoint. rewrite E, P, Hnth. cbn [snd].
+  replace (length (x_log x) <? idx)%nat with false by (symmetry; apply Nat.ltb_ge; assumption).
+  rewrite HU. cbn [fst snd d_tabs d_tx]. split; [reflexivity|]. split; [assumption|].
+  eexists _, _. split; [reflexivity|]. split; [reflexivity|]. cbn [x_sps].
+  split; [reflexivity|]. now apply sp_position_first.
+Qed.
+
+(** the same, for the history that led there: any statements from any committed state *)
+Theorem rollback_to_restores_history db0 ops n j e :
+  d_tx db0 = None ->
+  let d := fst (grun db0 [] ops) in
+  let g := snd (grun db0 [] ops) in
+  g_position n g = Some j -> nth_error g j = Some e -> g_dirty e = false ->
+  let res := step d (ORollbackTo n) in
+  snd res = ROk 0 /\ tabs_beq (d_tabs (fst res)) (g_copy e) /\
+  exists x x', d_tx d = Some x /\ d_tx (fst res) = Some x' /\
+               x_sps x' = firstn (S j) (x_sps x) /\ sp_position n (x_sps x') = Some j.
+Proof.
+  intros Hn d g. apply rollback_to_restores. apply ginv_grun. now apply ginv_init.
+Qed.
+
+(** whatever the history: the stack effect of ROLLBACK TO (first savepoint of that name kept, later
+    ones destroyed, log cut), and [Vec::drain] never panics *)
+Theorem rollback_to_stack d g n :
+  ginv d g -> forall x, d_tx d = Some x ->
+  match sp_position n (x_sps x) with
+  | None => step d (ORollbackTo n) = (d, RErr)
+  | Some j =>
+      exists x' idx, nth_error (x_sps x) j = Some (n, idx) /\ (idx <= length (x_log x))%nat /\
+        d_tx (fst (step d (ORollbackTo n))) = Some x' /\
+        x_sps x' = firstn (S j) (x_sps x) /\ x_log x' = firstn idx (x_log x) /\
+        sp_position n (x_sps x') = Some j
+  end.
+Proof.
+  intros H x E. unfold ginv in H. rewrite E in H.
+  destruct (sp_position n (x_sps x)) as [j|] eqn:P.
+  - destruct (sp_position_nth n _ _ P) as (idx & Hn & Hnth).
+    pose proof (stack_inv_bounds _ _ _ _ _ _ _ _ H Hn) as [_ Hidx].
+    cbn [step]. unfold rollback_to_savepoint. rewrite E, P, Hnth. cbn [snd].
+    replace (length (x_log x) <? idx)%nat with false by (symmetry; apply Nat.ltb_ge; assumption).
+    destruct (undo_all _ _) as [T' [u| |]]; cbn [fst d_tx];
+      eexists _, idx; (split; [exact Hn|]); (split; [exact Hidx|]); (split; [reflexivity|]); cbn [x_sps x_log];
+      (split; [reflexivity|]); (split; [reflexivity|]); now apply sp_position_first.
+  - cbn [step]. unfold rollback_to_savepoint. now rewrite E, P.
+Qed.
+
+Corollary rollback_to_stack_history db0 ops n :
+  d_tx db0 = None ->
+  let d := fst (grun db0 [] ops) in
+  forall x, d_tx d = Some x ->
+  match sp_position n (x_sps x) with
+  | None => step d (ORollbackTo n) = (d, RErr)
+  | Some j =>
+      exists x' idx, nth_error (x_sps x) j = Some (n, idx) /\ (idx <= length (x_log x))%nat /\
+        d_tx (fst (step d (ORollbackTo n))) = Some x' /\
+        x_sps x' = firstn (S j) (x_sps x) /\ x_log x' = firstn idx (x_log x) /\
+        sp_position n (x_sps x') = Some j
+  end.
+Proof.
+  intros Hn d. exact (rollback_to_stack d (snd (grun db0 [] ops)) n (ginv_grun ops db0 [] (ginv_init db0 Hn))).
+Qed.
+
+(** RELEASE changes no data, for every state (hence after every history), and removes exactly the
+    first savepoint of that name *)
+Theorem release_no_data_change d n :
+  let d' := fst (step d (ORelease n)) in
+  d_tabs d' = d_tabs d /\ d_cat d' = d_cat d /\ d_uix d' = d_uix d.
+Proof.
+  cbn [step]. unfold release_savepoint. repeat (destr_match; cbn [fst]); auto.
+Qed.
+
+Theorem release_stack d n x :
+  d_tx d = Some x ->
+  match sp_position n (x_sps x) with
+  | None => step d (ORelease n) = (d, RErr)
+  | Some j => snd (step d (ORelease n)) = ROk 0 /\
+              exists x', d_tx (fst (step d (ORelease n))) = Some x' /\
+                         x_sps x' = remove_nth j (x_sps x) /\ x_log x' = x_log x
+  end.
+Proof.
+  intros E. cbn [step]. unfold release_savepoint. rewrite E.
+  destruct (sp_position n (x_sps x)); [|reflexivity]. cbn. eauto.
+Qed.
+
+(** SAVEPOINT changes no data and pushes its name *)
+Theorem savepoint_pushes d n x :
+  d_tx d = Some x ->
+  let d' := fst (step d (OSavepoint n)) in
+  d_tabs d' = d_tabs d /\
+  exists x', d_tx d' = Some x' /\ x_sps x' = x_sps x ++ [(n, length (x_log x))] /\ x_log x' = x_log x.
+Proof. intros E. cbn [step]. unfold create_savepoint. rewrite E. cbn. eauto. Qed.
+
+(** * Insert-only segments, stated without the reference stack *)
+Definition is_insert (o : op) : bool :=
+  match o with OInsert _ _ | OApiInsert _ _ | OApiBatch _ _ => true | _ => false end.
+
+(** an insert statement all of whose rows the normaliser leaves alone (decided on the schema) *)
+Definition clean_insert (T : tables) (o : op) : bool :=
+  is_insert o && op_clean (mkDb (mkCat [] []) T [] None) o.
+
+Lemma op_clean_insert_schema d1 d2 o :
+  schema_of (d_tabs d1) = schema_of (d_tabs d2) -> is_insert o = true -> op_clean d1 o = op_clean d2 o.
+Proof.
+  intros HS Hi. destruct o; try discriminate; cbn [op_clean]; unfold rows_clean.
+  - destruct (get_table (d_tabs d1) t) as [tb|] eqn:G.
+    + destruct (schema_get _ _ _ _ HS G) as (tb2 & -> & ->). reflexivity.
+    + now rewrite (schema_get_none _ _ _ HS G).
+  - destruct (get_table (d_tabs d1) t) as [tb|] eqn:G.
+    + destruct (schema_get _ _ _ _ HS G) as (tb2 & -> & ->). reflexivity.
+    + now rewrite (schema_get_none _ _ _ HS G).
+  - destruct (get_table (d_tabs d1) t) as [tb|] eqn:G.
+    + destruct (schema_get _ _ _ _ HS G) as (tb2 & -> & ->). reflexivity.
+    + now rewrite (schema_get_none _ _ _ HS G).
+Qed.
+
+Lemma grun_clean_inserts T0 seg : forall d g,
+  schema_of (d_tabs d) = schema_of T0 ->
+  Forall (fun o => clean_insert T0 o = true) seg ->
+  snd (grun d g seg) = g /\ schema_of (d_tabs (fst (grun d g seg))) = schema_of T0.
+Proof.
+  induction seg as [|o seg IH]; intros d g HS HF; cbn [grun fst snd]; [auto|].
+  inversion HF as [|? ? Ho HF']; subst. unfold clean_insert in Ho. apply andb_true_iff in Ho as [Hi Hc].
+  assert (Hc' : op_clean d o = true).
+  { rewrite <- Hc. apply op_clean_insert_schema; [|assumption]. cbn [d_tabs]. assumption. }
+  assert (Hd : is_data_op o = true) by (destruct o; try discriminate; reflexivity).
+  assert (Hg : gstep d g o = g).
+  { destruct o; try discriminate; cbn [gstep]; now rewrite Hc'. }
+  rewrite Hg. apply IH; [|assumption].
+  destruct (step_data_clean d o Hd Hc') as (extra & _ & HS' & _). congruence.
+Qed.
+
+Lemma g_position_app_fresh n e : forall g,
+  g_position n g = None -> g_name e = n -> g_position n (g ++ [e]) = Some (length g).
+Proof.
+  induction g as [|e0 g IH]; cbn [g_position app length]; intros H He.
+  - rewrite He, Z.eqb_refl. reflexivity.
+  - destruct (g_name e0 =? n); [discriminate|].
+    destruct (g_position n g); [discriminate|]. now rewrite IH.
+Qed.
+
+(** SAVEPOINT s; only inserts of rows the normaliser leaves alone; ROLLBACK TO s: every table is back
+    (as a bag), from any state a history can reach *)
+Theorem rollback_to_restores_insert_segment d g s seg :
+  ginv d g -> d_tx d <> None -> g_position s g = None ->
+  Forall (fun o => clean_insert (d_tabs d) o = true) seg ->
+  let res := step (run (fst (step d (OSavepoint s))) seg) (ORollbackTo s) in
+  snd res = ROk 0 /\ tabs_beq (d_tabs (fst res)) (d_tabs d).
+Proof.
+  intros H Hx P HF res.
+  set (d1 := fst (step d (OSavepoint s))). set (g1 := gstep d g (OSavepoint s)).
+  assert (H1 : ginv d1 g1) by (apply ginv_step; assumption).
+  assert (Hg1 : g1 = g ++ [mkG s (d_tabs d) false]).
+  { unfold g1. cbn [gstep]. destruct (d_tx d); [reflexivity|congruence]. }
+  assert (HT1 : d_tabs d1 = d_tabs d).
+  { unfold d1. cbn [step]. unfold create_savepoint. destruct (d_tx d); reflexivity. }
+  destruct (grun_clean_inserts (d_tabs d) seg d1 g1) as (Hg2 & _); [now rewrite HT1|assumption|].
+  pose proof (ginv_grun seg d1 g1 H1) as H2. rewrite Hg2, grun_fst in H2.
+  destruct (rollback_to_restores (run d1 seg) g1 s (length g) (mkG s (d_tabs d) false) H2) as (R1 & R2 & _).
+  - rewrite Hg1. now apply g_position_app_fresh.
+  - rewrite Hg1, nth_error_app2, Nat.sub_diag by lia. reflexivity.
+  - reflexivity.
+  - split; assumption.
+Qed.
+
+Corollary rollback_to_restores_insert_segment_history db0 pre s seg :
+  d_tx db0 = None ->
+  let d := run db0 pre in
+  (exists x, d_tx d = Some x /\ sp_position s (x_sps x) = None) ->
+  Forall (fun o => clean_insert (d_tabs d) o = true) seg ->
+  let res := step (run (fst (step d (OSavepoint s))) seg) (ORollbackTo s) in
+  snd res = ROk 0 /\ tabs_beq (d_tabs (fst res)) (d_tabs d).
+Proof.
+  intros Hn d (x & Ex & Ps) HF.
+  pose proof (ginv_grun pre db0 [] (ginv_init db0 Hn)) as H. rewrite grun_fst in H. fold d in H.
+  apply (rollback_to_restores_insert_segment d (snd (grun db0 [] pre))); try assumption.
+  - congruence.
+  - unfold ginv in H. rewrite Ex in H. now rewrite (stack_inv_positions _ _ s _ _ _ H).
+Qed.
+
+(** * The unconditional statement is false of the faithful model *)
+
+(** what "not restored" means: some row occurs a different number of times in some table *)
+Definition differs (T T' : tables) : Prop :=
+  exists t tb tb' r, get_table T t = Some tb /\ get_table T' t = Some tb' /\
+                     count_row r (t_rows tb') <> count_row r (t_rows tb).
+
+Lemma differs_not_beq T T' : differs T T' -> ~ tabs_beq T' T.
+Proof.
+  intros (t & tb & tb' & r & G & G' & Hc) HB.
+  destruct (tabs_beq_get _ _ _ _ HB G') as (tb2 & G2 & _ & Hb). rewrite G in G2. inversion G2; subst.
+  apply Hc. apply Hb.
+Qed.
+
+Definition wit14_db : db :=
+  run (mkDb (mkCat [0] []) [(0, mkTable [TInt; TInt; TVarchar (Some 2%nat)] [])] [] None)
+      [OInsert 0 [[LInt 1; LInt 10; LStr [97]]]; OBegin].
+
+Definition after_segment (d : db) (s : spname) (seg : list op) : db * result :=
+  step (run (fst (step d (OSavepoint s))) seg) (ORollbackTo s).
+
+(** UPDATE records no change: ROLLBACK TO reports success and leaves the updated row *)
+Theorem rollback_to_restores_refuted_update :
+  exists d s seg, d_tx d <> None /\ snd (after_segment d s seg) = ROk 0 /\
+                  differs (d_tabs d) (d_tabs (fst (after_segment d s seg))).
+Proof.
+  exists wit14_db, 1, [OUpdate 0 1%nat 11 None].
+  split; [vm_compute; discriminate|]. split; [reflexivity|].
+  exists 0, (mkTable [TInt; TInt; TVarchar (Some 2%nat)] [[VInteger 1; VInteger 10; VVarchar [97]]]),
+         (mkTable [TInt; TInt; TVarchar (Some 2%nat)] [[VInteger 1; VInteger 11; VVarchar [97]]]),
+         [VInteger 1; VInteger 10; VVarchar [97]].
+  vm_compute. repeat split; discriminate.
+Qed.
+
+(** DELETE records no change either *)
+Theorem rollback_to_restores_refuted_delete :
+  exists d s seg, d_tx d <> None /\ snd (after_segment d s seg) = ROk 0 /\
+                  differs (d_tabs d) (d_tabs (fst (after_segment d s seg))).
+Proof.
+  exists wit14_db, 1, [ODelete 0 (Some (1%nat, 10))].
+  split; [vm_compute; discriminate|]. split; [reflexivity|].
+  exists 0, (mkTable [TInt; TInt; TVarchar (Some 2%nat)] [[VInteger 1; VInteger 10; VVarchar [97]]]),
+         (mkTable [TInt; TInt; TVarchar (Some 2%nat)] []),
+         [VInteger 1; VInteger 10; VVarchar [97]].
+  vm_compute. repeat split; discriminate.
+Qed.
+
+(** an inserted row that the table normalises (VARCHAR(2) value of three bytes, truncated on insert)
+    is recorded un-normalised: [remove_row] does not find it, ROLLBACK TO fails and the row stays *)
+Theorem rollback_to_restores_refuted_normalised_insert :
+  exists d s seg, d_tx d <> None /\ snd (after_segment d s seg) = RErr /\
+                  differs (d_tabs d) (d_tabs (fst (after_segment d s seg))).
+Proof.
+  exists wit14_db, 1, [OInsert 0 [[LInt 2; LInt 20; LStr [97; 98; 99]]]].
+  split; [vm_compute; discriminate|]. split; [reflexivity|].
+  exists 0, (mkTable [TInt; TInt; TVarchar (Some 2%nat)] [[VInteger 1; VInteger 10; VVarchar [97]]]),
+         (mkTable [TInt; TInt; TVarchar (Some 2%nat)]
+                  [[VInteger 1; VInteger 10; VVarchar [97]]; [VInteger 2; VInteger 20; VVarchar [97; 98]]]),
+         [VInteger 2; VInteger 20; VVarchar [97; 98]].
+  vm_compute. repeat split; discriminate.
+Qed.
+
+(** even when the UPDATE is recorded the way [TransactionChange::Update] suggests, [undo_change]
+    looks for the OLD row (which is no longer in the table) and fails *)
+Theorem undo_change_update_refuted :
+  exists d s seg, d_tx d <> None /\ snd (after_segment d s seg) = RErr /\
+                  differs (d_tabs d) (d_tabs (fst (after_segment d s seg))).
+Proof.
+  exists wit14_db, 1,
+    [OUpdate 0 1%nat 11 None;
+     OApiRecord (CUpdate 0 [VInteger 1; VInteger 10; VVarchar [97]] [VInteger 1; VInteger 11; VVarchar [97]])].
+  split; [vm_compute; discriminate|]. split; [reflexivity|].
+  exists 0, (mkTable [TInt; TInt; TVarchar (Some 2%nat)] [[VInteger 1; VInteger 10; VVarchar [97]]]),
+         (mkTable [TInt; TInt; TVarchar (Some 2%nat)] [[VInteger 1; VInteger 11; VVarchar [97]]]),
+         [VInteger 1; VInteger 10; VVarchar [97]].
+  vm_compute. repeat split; discriminate.
+Qed.
+
+(** * Examples: the hypotheses of the positive theorems are met by non-trivial histories *)
+
+(** duplicate names, nesting, a release, an UPDATE before the savepoint that is rolled back to and a
+    DELETE that touches no row: the first S2 is clean although S1 is not *)
+Example rollback_to_restores_example :
+  let db0 := mkDb (mkCat [0; 1] []) [(0, mkTable [TInt; TInt] []); (1, mkTable [TInt; TChar 2%nat] [])] [] None in
+  let ops := [OInsert 0 [[LInt 1; LInt 10]]; OBegin; OSavepoint 1; OUpdate 0 1%nat 11 None;
+              OSavepoint 2; OInsert 1 [[LInt 1; LStr [97; 98]]]; OSavepoint 2; OSavepoint 3;
+              OInsert 0 [[LInt 2; LInt 20]; [LInt 3; LInt 30]]; ORelease 3; ODelete 1 (Some (0%nat, 7))] in
+  let d := fst (grun db0 [] ops) in
+  let g := snd (grun db0 [] ops) in
+  exists e, g_position 2 g = Some 1%nat /\ nth_error g 1 = Some e /\ g_dirty e = false /\
+            map g_name g = [1; 2; 2] /\ map g_dirty g = [true; false; false] /\
+            d_tabs d <> g_copy e /\
+            snd (step d (ORollbackTo 2)) = ROk 0 /\ d_tabs (fst (step d (ORollbackTo 2))) = g_copy e.
+Proof. vm_compute. eexists. repeat split; congruence. Qed.
+
+Example rollback_to_restores_insert_segment_example :
+  let d := wit14_db in
+  let seg := [OInsert 0 [[LInt 2; LInt 20; LStr [97; 98]]; [LInt 3; LNull; LNull]];
+              OApiInsert 0 [VInteger 1; VInteger 10; VVarchar [97]]] in
+  forallb (clean_insert (d_tabs d)) seg = true /\
+  d_tabs (run (fst (step d (OSavepoint 5))) seg) <> d_tabs d /\
+  snd (after_segment d 5 seg) = ROk 0.
+Proof. vm_compute. repeat split; congruence. Qed.
